@@ -345,6 +345,12 @@ def _norm(text):
     return None
 
 
+def _noaddr(text):
+    """object addresses inside reprs (`<generator object f at 0x7f...>`) are not part of what is compared"""
+    import re as _re
+    return _re.sub(r" at 0x[0-9a-fA-F]+", " at 0xADDR", text)
+
+
 def parse_message(msg, expr_src):
     """Split a generated message into (location, header, [(key, rendered)], raw).  The condition text is the
     shortest prefix (after location and description) ending at a ':' that parses to the evaluated expression;
@@ -433,6 +439,16 @@ def special_value(v):
     if v == "BUILTIN_ALL":
         import builtins
         return builtins.all
+    if v == "METHDESC":
+        return str.lower
+    if v == "SLOTWRAP":
+        return int.__add__
+    if v == "METHWRAP":
+        return _A_LIST.__len__
+    if v == "MODULESUB":
+        return _A_MODULE_SUBCLASS_INSTANCE
+    if v == "GENFUNC":
+        return _ratios
     if v == "FUNC":
         return make_env
     if v == "LAMBDA":
@@ -463,6 +479,22 @@ def special_value(v):
             r = [r, 1]
         return r
     return v
+
+
+_A_LIST = [1, 2, 3]
+
+
+class _ModuleSub(type(os)):
+    """a customised module type (as modules with a re-assigned __class__ have)"""
+
+
+_A_MODULE_SUBCLASS_INSTANCE = _ModuleSub("verif_settings")
+
+
+def _ratios(n, xs):
+    """a generator function: consumed lazily by the condition; the items Python never asked for must not be computed"""
+    for x in xs:
+        yield n // x
 
 
 def _own_all(iterable):
@@ -533,8 +565,10 @@ def to_val(v, objs):
 
 
 def _representable_value(v):
-    import icontract._represent as _rp
-    return bool(_rp._representable(v))
+    """the documented rule, stated independently of the library: classes, functions, methods, modules and built-in
+    functions are not shown; everything else is (C-level method descriptors, slot wrappers, method wrappers included)"""
+    import inspect as _inspect
+    return not (_inspect.isclass(v) or _inspect.isfunction(v) or _inspect.ismethod(v) or _inspect.ismodule(v) or _inspect.isbuiltin(v))
 
 
 def from_val(j, objs):
@@ -674,7 +708,7 @@ def run_batch(cases, glob_src=DEFAULT_GLOB_SRC, closure_value=5, normalise_locat
             for k, v in orc["evaluated"]:
                 node = orc["nodes"][k]
                 try:
-                    rendered = a_repr.repr(v)
+                    rendered = _noaddr(a_repr.repr(v))
                 except BaseException:  # noqa: B902
                     rendered = None
                 ev.append({"k": k, "kind": type(node).__name__, "dump": ast.dump(node), "text": ast.unparse(node),
@@ -685,7 +719,7 @@ def run_batch(cases, glob_src=DEFAULT_GLOB_SRC, closure_value=5, normalise_locat
             ob["evaluated"] = ev
             ob["nodes"] = [{"k": k, "dump": ast.dump(nd), "kind": type(nd).__name__, "in_comp": k in orc["in_comp"],
                             "text": ast.unparse(nd)} for k, nd in enumerate(orc["nodes"])]
-            ob["args_rendered"] = dict((k, (a_repr.repr(v) if _representable_value(v) else None)) for k, v in env.items())
+            ob["args_rendered"] = dict((k, (_noaddr(a_repr.repr(v)) if _representable_value(v) else None)) for k, v in env.items())
             # expected location of the decorator in the generated file
             if kind == "ensure":
                 ob["args_rendered"]["result"] = a_repr.repr(1)
@@ -705,7 +739,7 @@ def run_batch(cases, glob_src=DEFAULT_GLOB_SRC, closure_value=5, normalise_locat
                     except (icontract.ViolationError, ValueError) as e:
                         want = ValueError if c.get("error") == "ValueError" else icontract.ViolationError
                         if type(e) is want:
-                            res = ["ViolationError", str(e)]
+                            res = ["ViolationError", _noaddr(str(e))]
                         else:
                             res = [type(e).__name__, str(e)[:300], type(e.__cause__).__name__ if e.__cause__ is not None else None]
                     except BaseException as e:  # noqa: B902
@@ -740,7 +774,7 @@ def run_batch(cases, glob_src=DEFAULT_GLOB_SRC, closure_value=5, normalise_locat
                     for k, v in orc2["evaluated"]:
                         node = orc2["nodes"][k]
                         try:
-                            rendered = a_repr.repr(v)
+                            rendered = _noaddr(a_repr.repr(v))
                         except BaseException:  # noqa: B902
                             rendered = None
                         ev2.append({"k": k, "kind": type(node).__name__, "dump": ast.dump(node), "text": ast.unparse(node),
@@ -755,7 +789,7 @@ def run_batch(cases, glob_src=DEFAULT_GLOB_SRC, closure_value=5, normalise_locat
                         sub["out"] = ["ret"]
                     except icontract.ViolationError as e:
                         sub["out"] = ["ViolationError"]
-                        _l, _h, entries2, raw2 = parse_message(str(e), c["expr"])
+                        _l, _h, entries2, raw2 = parse_message(_noaddr(str(e)), c["expr"])
                         sub["entries"] = entries2
                         sub["message"] = raw2
                     except BaseException as e:  # noqa: B902
@@ -771,7 +805,7 @@ def run_batch(cases, glob_src=DEFAULT_GLOB_SRC, closure_value=5, normalise_locat
                     if one_line and root is not None and getattr(node, "lineno", None) == getattr(root, "lineno", None) and hasattr(node, "col_offset"):
                         pos = poskeys.get((type(node).__name__, node.col_offset - root.col_offset, node.end_col_offset - root.col_offset))
                     try:
-                        rr = a_repr.repr(v)
+                        rr = _noaddr(a_repr.repr(v))
                     except BaseException:  # noqa: B902
                         rr = None
                     rec.append({"dump": ast.dump(node), "rendered": rr, "type": type(v).__name__, "pos": pos,
